@@ -26,6 +26,7 @@ class Gen:
         self.invalid = invalid
         self.avoid = set(avoid)     # op kinds / features not to generate (used by the clean stream)
         self.cnt = 0
+        self.kept = set()    # ids of the services whose add_* call returned a handle the driver keeps
         self.bases = []      # ids b such that some element already carries a derived id b-ns / b-int / b-int1
         self.snap = {'nodes': [], 'edges': []}
         self.g = O.G(self.snap)
@@ -243,6 +244,17 @@ class Gen:
             name = self.rng.choice(sib)        # sibling name: must be refused
         return ['node_add_ns', n, name, self.new_id('s'), self.service_type()]
 
+    def op_stale_add_iface(self):
+        """add_interface through the kept handle of a service that has been removed since"""
+        if 'strand' in self.avoid:
+            return None
+        alive = set(self.g.ids(O.NS))
+        gone = sorted(self.kept - alive)
+        if not gone:
+            return None
+        return ['stale_add_iface', self.rng.choice(gone), self.fresh('p'), self.new_id('i'),
+                self.rng.choice(['TrunkPort', 'AccessPort'])]
+
     def op_node_remove_ns(self):
         g = self.g
         cand = [(o, i) for i in g.ids(O.NS) for o in g.has_owner(i) if g.cls(o) == O.NODE]
@@ -266,7 +278,12 @@ class Gen:
         if len(top) >= 2 and self.rng.random() < 0.08 and 'strand' not in self.avoid:
             a, b = self.rng.sample(top, 2)
             name = self.g.name(a) + '-' + self.g.name(b) + '-link'     # the name peer(a, b) derives for its link
-        return ['add_link', name, self.new_id('l'), self.rng.choice(LINK_TYPES), pool[:k]]
+        ifs = pool[:k]
+        if 'strand' not in self.avoid and self.rng.random() < 0.07:
+            other = [n[0] for n in self.g.nodes if n[1] != O.CP]
+            if other:                  # a handle that is not an interface (a node, component, service or link)
+                ifs = ifs[:1] + [self.rng.choice(other)] if self.rng.random() < 0.5 else [self.rng.choice(other), self.rng.choice(other)]
+        return ['add_link', name, self.new_id('l'), self.rng.choice(LINK_TYPES), ifs]
 
     def op_remove_link(self):
         g = self.g
@@ -306,6 +323,11 @@ class Gen:
         anyif = [i for i in g.ids(O.CP) if g.typ(i) != 'ServicePort']
         if self.bad() and g.ids(O.NS) and anyif:
             return ['disconnect', self.rng.choice(g.ids(O.NS)), self.rng.choice(anyif)]
+        if 'strand' not in self.avoid and self.rng.random() < 0.12:
+            pp = [(s, sp) for sp in g.ids(O.CP) if g.typ(sp) == 'ServicePort'
+                  and any(g.typ(y) == 'ServicePort' for (_, y) in g.peers(sp)) for s in g.nb(sp, 'connects', O.NS)]
+            if pp:                     # the service's own peering port
+                return ['disconnect'] + list(self.rng.choice(pp))
         if not pairs:
             return None
         return ['disconnect'] + list(self.rng.choice(pairs))
@@ -471,7 +493,7 @@ class Gen:
             if ref[0] != 'node':
                 p, code = 'details', 'd'
             else:
-                code = self.rng.choice(['Server', 'VM', 'Switch', 'NAS', 'Container'])
+                code = self.rng.choice(['Server', 'VM', 'Switch', 'NAS', 'Container', 'Facility'])
         else:
             code = self.rng.choice(['d1', 'd2'])
         return ['set_prop', ref, p, code]
@@ -488,7 +510,7 @@ class Gen:
                ('add_facility', 3), ('remove_facility', 2), ('add_switch', 3), ('remove_switch', 2),
                ('add_ns', 7), ('add_pm', 2), ('remove_ns', 3), ('node_add_ns', 2), ('node_remove_ns', 1),
                ('add_link', 4), ('remove_link', 2), ('connect', 8), ('disconnect', 4), ('peer', 3), ('unpeer', 2),
-               ('add_sub', 4), ('remove_sub', 2), ('rename', 4), ('set_prop', 3), ('unset_prop', 2)]
+               ('add_sub', 4), ('remove_sub', 2), ('rename', 4), ('set_prop', 3), ('unset_prop', 2), ('stale_add_iface', 1)]
 
     def next_op(self, tag):
         kinds = [k for k, w in self.WEIGHTS if k not in self.avoid for _ in range(w)]
@@ -516,6 +538,9 @@ def gen_history(rng, flavour, nops, vocab, invalid=0.2, avoid=(), stop_on_violat
             st = D.step(topo, flavour, op, want_views=True)
             ops.append(op)
             steps.append(st)
+            if op[1] in ('add_ns', 'node_add_ns') and st['out'] == 'ok':
+                old = set(n[0] for n in gen.snap['nodes'] if n[1] == O.NS)
+                gen.kept.update(n[0] for n in st['snap']['nodes'] if n[1] == O.NS and n[0] not in old)
             gen.snap = st['snap']
             gen.g = O.G(st['snap'])
             if stop_on_violation:
